@@ -131,7 +131,7 @@ def _sample(rng, kinds):
     return vals
 
 
-def _native_in_child(c, sname, vals):
+def _native_in_child(c, sname, vals, tolerant=True):
     """one native evaluation in a forked child: the real code may leave process-wide tables changed (that is what some
     scenarios are about), which must not leak into the next sample"""
     import pickle
@@ -142,8 +142,13 @@ def _native_in_child(c, sname, vals):
         try:
             os.close(r)
             try:
-                o = run_native(c, sname, vals, tolerant=True)
-                d = dict(pre_ok=o.pre_ok, error=o.error, failed=[(l, str(x)[:300]) for l, x in o.failed], exit=o.exit,
+                o = run_native(c, sname, vals, tolerant=tolerant)
+                try:
+                    from .native import _short
+                    res_text = _short(o.result)[:300]
+                except BaseException:
+                    res_text = "?"
+                d = dict(pre_ok=o.pre_ok, error=o.error, failed=[(l, str(x)[:300]) for l, x in o.failed], exit=o.exit, result=res_text,
                          exc_type=type(o.exc).__name__ if o.exc is not None else None, exc_text=repr(o.exc)[:300] if o.exc is not None else None)
             except BaseException as e:
                 d = None
